@@ -5,7 +5,7 @@ TRUSTED_BASE = [
     "Lean 4.33 kernel (thorough tier re-checks the .olean files with leanchecker)",
     "axioms allowed in property theorems: propext, Quot.sound, Classical.choice (audited with collectAxioms on every theorem of the property's modules); no sorry/admit/native_decide/bv_decide/user axioms",
     "tools/gen (Go->Lean translator, re-run on /repo's working tree on every check) and its validation by the correspondence run",
-    "Base/F64.lean soft-float: proved IEEE-754 round-to-nearest-even / exact for all finite operands against the decoding Spec.F64Val.ofBits (Props/IEEE.lean); trusted: that decoding (15 lines), Base/FB.lean on NaN/Inf operands (never produced by the scoring code), NaN payloads unmodelled; also validated against the hardware by the float stream",
+    "Base/F64.lean soft-float: proved IEEE-754 round-to-nearest-even / exact for all finite operands against the decoding Spec.F64Val.ofBits (Props/IEEE.lean); trusted: that decoding (15 lines), Base/FB.lean on Inf operands and on NaN operands other than the cases proved in Props/IEEE (v4.0 Score does compute with NaN: `math.NaN()` for a missing next-lower MacroVector, `abs(NaN - x)`, `math.IsNaN` - exactly the facts `sub_nan_correct`, `abs_correct`, `isNaN_correct`; no other package produces NaN or Inf), NaN payloads unmodelled; also validated against the hardware by the float stream",
     "Base/Go.lean: Go semantics of the translated subset (uint8 wrap-around, switch, range loops, errors)",
     "parsers: regenerated from the source (Gen/P*.lean) and proved equal to the readable models Model/Parse.lean (Props/ParseTie.lean); trusted: the translator's Go semantics for strings, slices, loops and sync.Pool.Get (any 14-slot buffer)",
     "Spec/*.lean: our transcription of the FIRST v2.0/v3.0/v3.1/v4.0 documents; v4 lookup table from an independent transcription (spec-data/)",
@@ -43,6 +43,8 @@ ALL_VERSIONS = ["20", "30", "31", "40"]
 # thorough tier only: exhaustive walks of the real code (v2.0: all 139,968,000 objects against the factored composition of the
 # code's own representatives; deviating objects are judged against the Spec)
 THOROUGH_STREAMS = {"C05": ["sweep20"], "C11": ["sweep20"]}
+# properties whose theorems use the regenerated no-panic twins lean/Cvss/Gen/K*.lean
+K_PROPS = ["C09", "C11"]
 EXTRA_STREAMS = {"C03": ["float"], "C04": ["float"], "C05": ["float"], "C11": ["float"], "C15": ["float"]}
 
 NOT_CLAIMED = {}
@@ -75,7 +77,7 @@ LEVEL_TEXT["C08"] = _lt("proof",
 LEVEL_TEXT["C17"] = _lt("proof",
     "PARTIAL. Proved: (Props/C17.lean) for every well-formed object of every version len(Vector()) = lenVec() - exact length formula for ALL byte states; per optional metric the "
     "mask test <-> value != X and the increment = len(prefix)+len(value), incl. U:Clear/Green/Amber/Red; (Props/C17b.lean) in the buffer cost model of Model/Alloc.lean (make = 1 "
-    "allocation, an append beyond the capacity = 1 more) a buffer pre-sized with lenVec() costs exactly ONE allocation for any decomposition of the text into appends, and any "
+    "allocation, an append beyond the capacity = 1 more) the capacity the code passes to make (regenerated as Vector_cap, proved = lenVec(): cap_eq_lenVecNN, vector_fitsNN) costs exactly ONE allocation for any decomposition of the text into appends, and any "
     "under-count regrows. NOT provable in a model (measured instead): escape analysis, the unsafe string conversion, sync.Pool steady state, that ParseVector/Get/Set/scores/Rating/"
     "Nomenclature allocate 0-1: the alloc stream counts real mallocs (runtime.MemStats deltas) for Vector, ParseVector after valid and after rejected inputs, Get, Set (legal and illegal), "
     "scores, Rating, Nomenclature on every optional metric alone, every value, all together and random objects.",
